@@ -20,3 +20,19 @@ Theorem C02_consistent_values_typed : forall vals decl, NoDup (map fst vals) -> 
     populate vals n = Some (structural v) /\ vty (structural v) (struct_ty t) = true.
 Proof. exact consistent_delivers. Qed.
 Print Assumptions C02_consistent_values_typed.
+
+(* type-correct witnesses never drive the compiled program into an ill-shaped state: the evaluation of the compiled
+   main is the source run (C01), and the source run of a well-typed program is never stuck (type safety) *)
+Require Import SV.Lang.Sem SV.Lang.WT SV.Proofs.CompileCorrect SV.Proofs.SemSafe.
+Theorem C02_never_stuck : forall jet wit args dbg jsig W,
+  (forall n t, W n = Some t -> exists v, wit n = Some v /\ vty v (struct_ty t) = true) ->
+  (forall j ps r a v, jsig j = Some (ps, r) -> vty a (struct_ty (TTuple ps)) = true -> jet j a = Some v -> vty v (struct_ty r) = true) ->
+  (jet verify_jet (VR VU) = Some VU /\ jet verify_jet (VL VU) = None) ->
+  forall main t, wt_program jsig W args main = true -> compile_program dbg args main = Ok t ->
+    eval jet wit t VU <> Stuck.
+Proof.
+  intros jet wit args dbg jsig W H1 H2 H3 main t Hw HC.
+  rewrite (compile_program_correct jet wit args dbg jsig W H1 H2 H3 main t Hw HC).
+  exact (sem_program_safe jet wit args jsig W H1 H2 main Hw).
+Qed.
+Print Assumptions C02_never_stuck.
